@@ -252,7 +252,7 @@ def replayable(H):
     ix, E = H.ix, H.ev
     return z3.And(z3.Implies(E.sc == bv(ix.Sc['Step']), E.has_last),
                   z3.Implies(E.sc != bv(ix.Sc['Step']), z3.Not(E.eq_last)),
-                  E.err != bv(ix.Err['AmbiguousMatch']), z3.ULT(E.cur, bv(1000)), z3.ULT(E.left, bv(1000)))
+                  z3.ULT(E.cur, bv(1000)), z3.ULT(E.left, bv(1000)))
 
 
 def get_cex(H, ex, claim, res, k):
@@ -290,7 +290,7 @@ def transition_script(H, d):
         kind = inv(ix.Step)[d['ev.step']].lower()
         err = ''
         if kind == 'failed':
-            err = ' ' + {'NotFound': 'notfound', 'Panic': 'panic', 'AmbiguousMatch': 'panic'}[inv(ix.Err)[d['ev.err']]]
+            err = ' ' + {'NotFound': 'notfound', 'Panic': 'panic', 'AmbiguousMatch': 'ambiguous'}[inv(ix.Err)[d['ev.err']]]
         if sc == 'Background':
             ev = 'ev bg 0 %s%s %s' % (kind, err, r)
         else:
